@@ -39,6 +39,7 @@ def check(ctx):
     ctx.attempt(_sibling_verifiers)
     ctx.attempt(config_separators)
     ctx.attempt(decompiled_text_is_typed)
+    ctx.attempt(word_dispatch)
     ctx.attempt(_direction_writer)
     ctx.attempt(config_setters_keep_false)
     from .layouts import layout_classes      # the config reader validates `layout.<name>` against this table
@@ -583,6 +584,77 @@ def config_separators(ctx, rule='TBL'):
               f"the split pattern {pat!r} no longer matches {missing}: a setting written `name{missing[0] if missing else ''}value` is "
               f"taken for a single unknown name and rejected with ValueError although it is valid config text",
               key=f"{rule}|Config._set_str_to_values|separators|{''.join(missing)}", where=common.loc(fi, splits[0]))
+
+
+def word_dispatch(ctx, rule='TBL'):
+    """Config._text_to_attributes sends each word of a config string down one
+    branch of an if/elif chain.  The chain is evaluated here (tests in order,
+    on constant words, tables folded from the source) for every kind of word:
+    the five layout names must reach the branch that stores .layout, n/s the
+    one that stores .default_ns, e/w .default_ew, every boolean setting the
+    typed reader, and words that are no setting at all ('nonsense', 'scrub',
+    'strict', 'nw', 'exact') must fall through to the typed reader, which
+    rejects them with ValueError."""
+    from ..streval import StrEval, Unsupported
+    fi = ctx.repo.func('Config._text_to_attributes')
+    construct = 'Config._text_to_attributes: every kind of word reaches its own branch'
+    loops = [l for l in walk_local(fi.node) if isinstance(l, ast.For) and isinstance(l.target, ast.Name)]
+    chain = None
+    for lp in loops:
+        for st in lp.body:
+            if isinstance(st, ast.If) and st.orelse and any(
+                    isinstance(a, ast.Assign) and norm(a.targets[0]) in ('self.layout', 'self.default_ns') for a in ast.walk(st)):
+                chain, var = st, lp.target.id
+    if chain is None:
+        ctx.undecided(rule, construct, 'dispatch chain not recognised')
+        return
+    branches = []       # (test or None, label)
+    node = chain
+    while True:
+        body = node.body
+        stores = sorted({norm(a.targets[0])[5:] for b in body for a in ast.walk(b) if isinstance(a, ast.Assign)
+                         and norm(a.targets[0]).startswith('self.')})
+        typed = any(isinstance(c, ast.Call) and norm(c.func) == 'self._set_str_to_values' for b in body for c in ast.walk(b))
+        label = 'typed' if typed and not stores else ','.join(stores) if stores else 'other'
+        branches.append((node.test, label))
+        if len(node.orelse) == 1 and isinstance(node.orelse[0], ast.If):
+            node = node.orelse[0]
+            continue
+        if node.orelse:
+            typed = any(isinstance(c, ast.Call) and norm(c.func) == 'self._set_str_to_values' for b in node.orelse for c in ast.walk(b))
+            branches.append((None, 'typed' if typed else 'other'))
+        break
+    layouts_ = ctx.fold.get('config.layouts', '_IMPLEMENTED_LAYOUTS')
+    bools = ctx.fold.get_attr('config.config', 'Config', '_BOOL_TYPE_ATTRIBUTES')
+    want = {w: 'layout' for w in layouts_}
+    want.update({'n': 'default_ns', 's': 'default_ns', 'e': 'default_ew', 'w': 'default_ew'})
+    want.update({b: 'typed' for b in bools})
+    want.update({f"{b}.False": 'typed' for b in list(bools)[:3]})
+    want.update({w: 'typed' for w in ('nonsense', 'scrub', 'strict', 'exact', 'nw', 'sw', 'wait', 'ns', 'qq_depth.2',
+                                      'default_ns.s', 'layout.TRS_desc', 'sections', 'east_half')})
+    n, wrong = 0, []
+    for word, target in sorted(want.items()):
+        got = None
+        try:
+            for test, label in branches:
+                if test is None or StrEval(ctx, fi, env={var: word}).ev(test):
+                    got = label
+                    break
+        except Unsupported as e:
+            ctx.undecided(rule, construct, f"test not evaluated for {word!r} ({e})")
+            return
+        n += 1
+        if got != target:
+            wrong.append((word, got, target))
+    ex = wrong[0] if wrong else None
+    ctx.check(not wrong, rule, construct, f"{n} words classified",
+              (f"the word {ex[0]!r} goes down the `{ex[1]}` branch instead of `{ex[2]}`"
+               + (": a layout name given as a bare word silently sets a default direction and the layout is not set"
+                  if ex[2] == 'layout' else
+                  ": a word that is no setting is silently accepted (as a direction) instead of being rejected with ValueError"
+                  if ex[2] == 'typed' else '')
+               + f" ({len(wrong)} of {n} words misrouted)") if ex else '',
+              key=f"{rule}|Config._text_to_attributes|dispatch|{ex[2] if ex else ''}", where=common.loc(fi, chain))
 
 
 def decompiled_text_is_typed(ctx, rule='TBL'):
